@@ -25,9 +25,10 @@ def envStep (e : ExtState) : EnvOp → ExtState
   | .burnLimit n => { e with cctpBurnLimit := some n }
   | .recvEnabled b => { e with recvEnabled := b }
   | .hypToken id d => { e with hypTokens := e.hypTokens ++ [(id, d)] }
-  | .hypEnroll id dom gas => { e with hypRouters := (e.hypRouters.filter fun r => !(r.1 == id && r.2.1 == dom)) ++ [(id, dom, gas)] }
-  | .hypUnroll id dom => { e with hypRouters := e.hypRouters.filter fun r => !(r.1 == id && r.2.1 == dom) }
-  | .hypHook h => { e with hypHook := h }
+  | .hypEnroll id dom gas => { e with hypRouters := (e.hypRouters.filter fun r => !(internalId r.1 == internalId id && r.2.1 == dom)) ++ [(id, dom, gas)] }
+  | .hypUnroll id dom => { e with hypRouters := e.hypRouters.filter fun r => !(internalId r.1 == internalId id && r.2.1 == dom) }
+  | .hypHook .noop => { e with hypHook := .noop }
+  | .hypHook h => { e with hypHook := h, hypIgps := e.hypIgps ++ [h] }
 
 inductive Op where
   | recv (pkt : Packet)
